@@ -178,8 +178,15 @@ def _multiple(c, s, n):
 
 
 def cos_sin(x):
-    """(cos, sin) of an angle-provenanced Num as z3 Real polynomial terms"""
+    """(cos, sin) of an angle-provenanced Num (or a constant) as z3 Real polynomial terms"""
     ctx = _ctx()
+    x = core.lift(x)
+    if x.ang is None:
+        c = x.cval()
+        if c is None:
+            raise EngineError('cos_sin of a value without angle provenance')
+        x = Num(x.k, x.n, x.d, x.e, ty=x.ty)
+        x.ang = Ang({}, c, 'deg')
     a = x.ang
     C, S = z3.RealVal(1), z3.RealVal(0)
     for key, q in a.lin.items():
@@ -198,6 +205,42 @@ def cos_sin(x):
     for _ in range(qt):
         C, S = -S, C
     return z3.simplify(C), z3.simplify(S)
+
+
+def direction(x):
+    """(Dx, Dy): a vector along (cos x, sin x) up to a POSITIVE scale, division- and root-free where possible:
+    for an angle that is +-atan2(Y, X) plus a constant the arguments of atan2 are used directly."""
+    ctx = _ctx()
+    x = core.lift(x)
+    a = x.ang
+    if a is None:
+        return cos_sin(x)
+    items = [(k, q) for k, q in a.lin.items() if q != 0]
+    if len(items) == 1 and abs(items[0][1]) == 1 and 'X' in ctx.atoms[items[0][0]]:
+        at = ctx.atoms[items[0][0]]
+        Dx, Dy = at['X'], at['Y'] if items[0][1] > 0 else -at['Y']
+        off = a.off % 360
+        qt = int(off // 90)
+        rho = off - 90 * qt
+        if rho != 0:
+            k = const_atom(ctx, rho)
+            Dx, Dy = Dx * k['c'] - Dy * k['s'], Dy * k['c'] + Dx * k['s']
+        for _ in range(qt):
+            Dx, Dy = -Dy, Dx
+        return Dx, Dy
+    return cos_sin(x)
+
+
+def sine_of(x):
+    """sin x for an angle that is exactly one asin atom (its argument), else via cos_sin"""
+    ctx = _ctx()
+    x = core.lift(x)
+    a = x.ang
+    if a is not None and a.off == 0:
+        items = [(k, q) for k, q in a.lin.items() if q != 0]
+        if len(items) == 1 and items[0][1] == 1 and 'Z' in ctx.atoms[items[0][0]] and isinstance(items[0][0], tuple) and items[0][0][0] == 'asin':
+            return ctx.atoms[items[0][0]]['Z']
+    return cos_sin(x)[1]
 
 
 # --------------------------------------------------------------------------- the math functions
